@@ -232,7 +232,12 @@ func runC24(s *simrt.Sim) {
 		got = append(got, bfeReq{req.Method, req.RequestURI, normFields(fs), body})
 	}
 	s.Checked(1)
-	s.Note("op", fmt.Sprintf("shapes=%v seg=%d -> ref %d requests (last err %v), bfe %d requests (err %v)", shapes, seg, len(ref), func() error { if len(ref) == 0 { return nil }; return ref[len(ref)-1].err }(), len(got), gotErr))
+	s.Note("op", fmt.Sprintf("shapes=%v seg=%d -> ref %d requests (last err %v), bfe %d requests (err %v)", shapes, seg, len(ref), func() error {
+		if len(ref) == 0 {
+			return nil
+		}
+		return ref[len(ref)-1].err
+	}(), len(got), gotErr))
 	s.Sample = map[string]interface{}{"shapes": shapes, "seg": seg, "bytes": len(wire)}
 	for i, g := range got {
 		if i >= len(ref) {
@@ -281,4 +286,3 @@ func runC24(s *simrt.Sim) {
 		s.Probe("hostile_stream")
 	}
 }
-
